@@ -311,7 +311,7 @@ REGISTRY["C14"]["teq"].append({"engine": "scan", "quick": {"n": 8, "ms": 300, "s
 REGISTRY["C11"]["teq"].append({"engine": "sweep", "quick": {"n": 16, "seedoff": 11}, "thorough": {"n": 64, "seedoff": 11},
                                 "oracle": True, "mismatch_is_failure": False, "timeout": 3400,
                                 "nontrivial": lambda case, res: "reads=0" not in case, "distinct_key": lambda case, res: case,
-                                "what": "stores with the TTL sweeper running every 10-80 ms (memory-only and persistent, cache on/off): 6-30 keys without TTL, with 1 s and with 3600 s TTLs, some made permanent (persist) or re-timed (update_ttl 1 s / 3600 s) before anything expires; a reader polls for 2.4 s; every answer is judged against the wall clock read before and after the call, with 150 ms either side of the expiry instant left unjudged: visible with the right value before, not found after; then a range scan, and for persistent stores flush, reopen and the same judgement"})
+                                "what": "stores with the TTL sweeper running every 10-80 ms, and stores with no sweeper at all where only the lazy check of each read enforces expiry (memory-only and persistent, flushed so that values are offloaded, cache on/off): 6-30 keys without TTL, with 1 s and with 3600 s TTLs, some made permanent (persist) or re-timed (update_ttl 1 s / 3600 s) before anything expires; a reader polls for 2.4 s; every answer is judged against the wall clock read before and after the call, with 150 ms either side of the expiry instant left unjudged: visible with the right value before, not found after; then a range scan, and for persistent stores flush, reopen and the same judgement"})
 # refused writes (memory limit; memory-only and persistent): next to records still in the write-behind buffer (C01, C13),
 # and with explicit timestamps that a failing call must not leave in the clock (C12)
 REGISTRY["C01"]["teq"].append(seq({"only": "limited", "n": 10, "ops": 80, "seedoff": 101}, {"only": "limited", "seedoff": 101}))
@@ -326,6 +326,15 @@ REGISTRY["C13"]["teq"].append({"engine": "conc", "quick": {"n": 24, "mode": "mem
 REGISTRY["C12"]["teq"].append(seq({"only": "limited", "autocheck": 1, "n": 6, "ops": 80, "seedoff": 212}, {"only": "limited", "autocheck": 1, "seedoff": 212}))
 REGISTRY["C13"]["teq"].append(seq({"only": "limited", "n": 10, "ops": 80, "seedoff": 113}, {"only": "limited", "seedoff": 113}))
 REGISTRY["C11"]["teq"].append(_f1(11))
+REGISTRY["C16"]["teq"].append({"engine": "sweep", "quick": {"n": 16, "cache": 1, "seedoff": 16}, "thorough": {"n": 64, "cache": 1, "seedoff": 16},
+                                "oracle": True, "mismatch_is_failure": False, "timeout": 3400,
+                                "nontrivial": lambda case, res: "reads=0" not in case and "persistent=1" in case, "distinct_key": lambda case, res: case,
+                                "what": "the cache must not mask expiry: persistent stores with the read cache on, values offloaded by a flush and read (hence cached) while alive, with and without the sweeper; once the expiry instant has passed (150 ms margin) get / get_bytes / range must not find the key, exactly as with the cache off; then reopen"})
+REGISTRY["C13"]["teq"].append({"engine": "crash", "quick": {"n": 1, "points": 12, "seedoff": 13}, "thorough": {"tier": "thorough", "seedoff": 13},
+                                "oracle": True, "mismatch_is_failure": False, "timeout": 3400,
+                                "nontrivial": lambda case, res: "plan=" in case and not case.endswith("none") and res.startswith("ok") and "keys=-" not in res,
+                                "distinct_key": lambda case, res: res,
+                                "what": "accounting after recovery: the C02 crash images (several on-disk generations of a key with different value lengths, replacement durable but retirement not, expired winners, torn batches) reopened by the real code; memory_usage() must equal the sum over the recovered records of overhead + key + value and len() their number (oracle in the child), and must equal Model.Recovery.open_image's counters"})
 
 
 def load_oracle_fails(outdir, limit=20):
